@@ -10,4 +10,3 @@ def check(ck):
     ck.run(H.check_graph_derivation, ck, "C14.R2")
     ck.run(H.check_version_taint, ck, "C14.R3")
     ck.run(H.check_enforcement, ck, "C14.R4")
-    H.fail_closed(ck)
